@@ -86,6 +86,10 @@ class Tracer:
                     continue
                 for a in t["args"]:
                     v = self.value(a)
+                    hops = 0
+                    while v.kind == "rv" and v.rv["r"] == "cast" and "Unsize" in str(v.rv.get("kind", v.rv.get("ck", ""))) and hops < 4:
+                        v = self.value(v.rv["o"])     # `&mut [u8; N]` coerced to `&mut [u8]`: the same storage
+                        hops += 1
                     if v.kind == "ref" and v.mut and "deref" not in v.place.p:
                         # `&mut local...` : the local's own storage may be written.  A reborrow
                         # `&mut *r` writes the referent of r, not r.
@@ -279,6 +283,40 @@ class Tracer:
                                     push_op(rv2[key])
                             for o in rv2.get("ops", []):
                                 push_op(o)
+                    # pointers derived over several hops: `buf.iter_mut().rev()` -> `next()` -> `Some(slot)` -> `*slot = v`
+                    derived = {dl}
+                    grew = True
+                    while grew:
+                        grew = False
+                        for l2 in range(len(self.b.locals)):
+                            if l2 in derived:
+                                continue
+                            for dd in self.defs.get(l2, []):
+                                srcs_ = []
+                                if dd[2] == "assign":
+                                    rv2 = dd[3]["rv"]
+                                    if rv2["r"] in ("use", "cast") and op_place(rv2["o"]) is not None:
+                                        srcs_.append(op_place(rv2["o"])["l"])
+                                    elif rv2["r"] in ("ref", "rawptr"):
+                                        srcs_.append(rv2["p"]["l"])
+                                elif dd[2] == "call":
+                                    for a in dd[3]["args"]:
+                                        pa = op_place(a)
+                                        if pa is not None:
+                                            srcs_.append(pa["l"])
+                                if any(x in derived for x in srcs_):
+                                    derived.add(l2)
+                                    grew = True
+                                    break
+                    for l2 in derived - {dl}:
+                        for dd in self.defs.get(l2, []):
+                            if dd[2] == "assign" and dd[3]["p"]["p"] and dd[3]["p"]["p"][0] == "deref":
+                                rv2 = dd[3]["rv"]
+                                for key in ("o", "a", "b"):
+                                    if key in rv2 and isinstance(rv2[key], dict):
+                                        push_op(rv2[key])
+                                for o in rv2.get("ops", []):
+                                    push_op(o)
                     # pointer copies: `_p = &mut *ret` then `*_p = v`
                     for l2 in range(len(self.b.locals)):
                         for dd in self.defs.get(l2, []):
